@@ -17,7 +17,7 @@ RULE = ("exhaustive: 1..4 caches x every hit/miss assignment per cache (multi-ke
         "to and including the first that answers, none after it; result is that cache's answer (all-miss: a "
         "miss-shaped value); a write is exactly one call on cache 0 carrying the caller's arguments (real back-end: "
         "the command received by server 0 equals the one a plain Client sends; other servers receive nothing). "
-        "Hit values include falsy ones (b'', 0, '', False, [], {}) and tuples shaped like another read's miss ((None, x), (None, None), ()): a hit is a hit whatever its value. Used again after close(): one to three close() calls (each closes every cache once, in any order) with reads and writes judged before and after each. Long key lists (2 ... 2049 keys, thorough to 10001, as list and tuple; the primary holding a single key at the start / middle / end / position 1024 / 1400, or nothing, or everything) go through the same oracle: every consulted cache is asked once, for exactly the caller's keys. Non-trivial: >=2 caches and the first hit is not in cache 0, or a hit carries a falsy value, or a write.")
+        "Hit values include falsy ones (b'', 0, '', False, [], {}) and tuples shaped like another read's miss ((None, x), (None, None), ()): a hit is a hit whatever its value. A cache that raises on a read (eleven exception types, at each position, with and without a hit before it): the error reaches the caller, it is not taken for a miss and no later cache is consulted. Used again after close(): one to three close() calls (each closes every cache once, in any order) with reads and writes judged before and after each. Long key lists (2 ... 2049 keys, thorough to 10001, as list and tuple; the primary holding a single key at the start / middle / end / position 1024 / 1400, or nothing, or everything) go through the same oracle: every consulted cache is asked once, for exactly the caller's keys. Non-trivial: >=2 caches and the first hit is not in cache 0, or a hit carries a falsy value, or a write.")
 MANIFEST = {
     "category": "exploration",
     "technique": "bounded-exhaustive enumeration of cache states and operations against a call-log oracle (scripted caches) and a differential oracle (real Clients over a fake network vs. a plain Client)",
@@ -398,6 +398,77 @@ def check_write(case):
     return True, ["write", op, "n=%d" % n]
 
 
+# ---- a cache whose read raises -------------------------------------------------------------------------------------
+
+class Raising(Scripted):
+    """a cache (not configured to ignore errors) whose read fails: an undeserialisable item, a protocol error, a broken pipe"""
+
+    def __init__(self, idx, present, log, exc):
+        Scripted.__init__(self, idx, present, log)
+        self.exc = exc
+
+    def _fail(self, name, **b):
+        self._rec(name, **b)
+        raise self.exc("cache %d cannot answer" % self.idx)
+
+    def get(self, key, default=None):
+        self._fail("get", key=key, default=default)
+
+    def gets(self, key, default=None, cas_default=None):
+        self._fail("gets", key=key, default=default, cas_default=cas_default)
+
+    def get_many(self, keys):
+        self._fail("get_many", keys=list(keys))
+
+    def gets_many(self, keys):
+        self._fail("gets_many", keys=list(keys))
+
+
+def raising_cases(tier, seed):
+    from pymemcache.exceptions import MemcacheError, MemcacheUnknownError, MemcacheIllegalInputError
+    excs = [TypeError, ValueError, KeyError, AttributeError, UnicodeDecodeError.__mro__[1], OSError, MemcacheError, MemcacheUnknownError, MemcacheIllegalInputError, LookupError, EOFError]
+    for ei in range(len(excs)):
+        for n in (2, 3):
+            for at in range(n):
+                for before_hits in (False, True):
+                    for op in ("get", "gets", "get_many", "gets_many"):
+                        yield (ei, n, at, before_hits, op)
+
+
+def check_raising(case):
+    """caches before the failing one miss (or one of them hits); the failing cache's error is the caller's to see - it is not a
+    miss: no later cache is consulted on its account"""
+    from pymemcache.exceptions import MemcacheError, MemcacheUnknownError, MemcacheIllegalInputError
+    excs = [TypeError, ValueError, KeyError, AttributeError, UnicodeDecodeError.__mro__[1], OSError, MemcacheError, MemcacheUnknownError, MemcacheIllegalInputError, LookupError, EOFError]
+    ei, n, at, before_hits, op = case
+    exc = excs[ei]
+    log = []
+    caches = []
+    for i in range(n):
+        if i == at:
+            caches.append(Raising(i, {K1, K2}, log, exc))
+        else:
+            caches.append(Scripted(i, {K1, K2} if (i > at or (before_hits and i == at - 1)) else set(), log))
+    fc = FallbackClient(caches)
+    desc = "%s; cache %d of %d raises %s, %s" % (op, at, n, exc.__name__, "the cache before it holds the keys" if before_hits and at else "the caches before it miss")
+    try:
+        r = ("ok", getattr(fc, op)(K1) if op in ("get", "gets") else getattr(fc, op)([K1, K2]))
+    except Exception as e:  # noqa: BLE001
+        r = ("exc", e)
+    consulted = [i for i, _n, _b in log]
+    hit_first = before_hits and at > 0
+    if hit_first:
+        want_consulted = list(range(at))
+        if consulted != want_consulted or r[0] != "ok":
+            raise Violation(["raising-cache", "not-reached", op], "%s: consulted %r, outcome %r - the hit in cache %d answers" % (desc, consulted, r, at - 1))
+        return True, ["raising-cache", "hit-before"]
+    if consulted != list(range(at + 1)):
+        raise Violation(["raising-cache", "consulted", op], "%s: consulted caches %r, expected %r" % (desc, consulted, list(range(at + 1))))
+    if not (r[0] == "exc" and type(r[1]) is exc):
+        raise Violation(["raising-cache", "swallowed", op], "%s: the call returned %r instead of passing the cache's error on" % (desc, r))
+    return True, ["raising-cache", exc.__name__]
+
+
 # ---- the object is used again after close() -------------------------------------------------------------------------
 
 def after_close_cases(tier, seed):
@@ -626,6 +697,7 @@ PARTS = [
     Part("writes-scripted", "enum", check_write, cases=write_cases, shards={"quick": 2, "thorough": 2}, exhaustive=True),
     Part("reads-key-kinds-and-shapes", "enum", check_key_shapes, cases=key_shape_cases, shards={"quick": 2, "thorough": 2}, exhaustive=True),
     Part("reads-long-key-lists", "enum", check_read_long, cases=long_read_cases, shards={"quick": 4, "thorough": 8}, exhaustive=True),
+    Part("a-cache-that-raises", "enum", check_raising, cases=raising_cases, shards={"quick": 2, "thorough": 2}, exhaustive=True),
     Part("used-again-after-close", "enum", check_after_close, cases=after_close_cases, shards={"quick": 2, "thorough": 2}, exhaustive=True),
     Part("reconfigured-cache-list", "enum", check_reconfig, cases=reconfig_cases, shards={"quick": 1, "thorough": 1}, exhaustive=True),
     Part("returned-containers", "enum", check_fresh_container, cases=fresh_container_cases, shards={"quick": 1, "thorough": 1}, exhaustive=True),
